@@ -21,9 +21,12 @@ import (
 	"context"
 	"fmt"
 	"math/rand"
+	"os"
+	"runtime"
 	"sort"
 	"strings"
 	"sync"
+	"sync/atomic"
 	"testing"
 	"time"
 
@@ -37,6 +40,7 @@ import (
 	"github.com/obolnetwork/charon/dkg"
 	"github.com/obolnetwork/charon/dkg/bcast"
 	"github.com/obolnetwork/charon/dkg/share"
+	"github.com/obolnetwork/charon/p2p"
 	"github.com/obolnetwork/charon/tbls"
 	"github.com/obolnetwork/charon/testutil"
 
@@ -51,7 +55,7 @@ type mkey = dkg.VerifMsgKey
 type network struct {
 	mu    sync.Mutex
 	n     int
-	cast1 map[int]map[mkey]frost.Round1Bcast  // by source node: what it handed to transport Round1
+	cast1 map[int]map[mkey]frost.Round1Bcast   // by source node: what it handed to transport Round1
 	p2p1  map[int]map[mkey]sharing.ShamirShare // by source node, all targets
 	cast2 map[int]map[mkey]frost.Round2Bcast
 	got1c map[int]map[int]bool // [target][source]: batch delivered
@@ -62,6 +66,15 @@ type network struct {
 	returned1, returned2 []chan struct{} // p2p: the real transport answered
 	rel1, rel2           []chan struct{} // the schedule hands the answer back
 	done                 []chan result
+
+	gid      []atomic.Int64 // goroutine of node i (mode cb: quiescence is read off the runtime's goroutine dump)
+	in1, in2 []*innerRet    // what the REAL transport call of node i returned (modes p2p, cb)
+}
+
+// innerRet: the outcome of a real frostP2P.Round1 / Round2 call, recorded before it is handed back to the node.
+type innerRet struct {
+	err         error
+	used, usedp []int // sources (SourceID) of the casts / share batches in the returned maps
 }
 
 type result struct {
@@ -84,6 +97,7 @@ func newNetwork(n int) *network {
 		return r
 	}
 	nw.called1, nw.called2, nw.returned1, nw.returned2, nw.rel1, nw.rel2 = mk(), mk(), mk(), mk(), mk(), mk()
+	nw.gid, nw.in1, nw.in2 = make([]atomic.Int64, n+1), make([]*innerRet, n+1), make([]*innerRet, n+1)
 	for i := 0; i <= n; i++ {
 		nw.done = append(nw.done, make(chan result, 1))
 		nw.got1c[i], nw.got1p[i], nw.got2[i] = map[int]bool{}, map[int]bool{}, map[int]bool{}
@@ -109,6 +123,9 @@ func (tp *nodeTP) Round1(ctx context.Context, cast map[mkey]frost.Round1Bcast, p
 
 	if tp.inner != nil {
 		c, p, err := tp.inner.Round1(ctx, cast, p2p)
+		nw.mu.Lock()
+		nw.in1[tp.i] = &innerRet{err: err, used: sources(c), usedp: sources(p)}
+		nw.mu.Unlock()
 		nw.returned1[tp.i] <- struct{}{}
 		select {
 		case <-nw.rel1[tp.i]:
@@ -158,6 +175,9 @@ func (tp *nodeTP) Round2(ctx context.Context, cast map[mkey]frost.Round2Bcast) (
 
 	if tp.inner != nil {
 		c, err := tp.inner.Round2(ctx, cast)
+		nw.mu.Lock()
+		nw.in2[tp.i] = &innerRet{err: err, used: sources(c)}
+		nw.mu.Unlock()
 		nw.returned2[tp.i] <- struct{}{}
 		select {
 		case <-nw.rel2[tp.i]:
@@ -185,6 +205,26 @@ func (tp *nodeTP) Round2(ctx context.Context, cast map[mkey]frost.Round2Bcast) (
 	}
 
 	return cr, nil
+}
+
+// sources: the SourceIDs occurring in the keys of a result map of the transport.
+func sources[T any](m map[mkey]T) []int {
+	set := map[int]bool{}
+	for k := range m {
+		set[int(k.SourceID)] = true
+	}
+
+	return sortedKeys(set)
+}
+
+func (nw *network) inner(round, i int) *innerRet {
+	nw.mu.Lock()
+	defer nw.mu.Unlock()
+	if round == 1 {
+		return nw.in1[i]
+	}
+
+	return nw.in2[i]
 }
 
 func keyList[T any](m map[mkey]T) [][]int {
@@ -367,6 +407,7 @@ func runCeremony(t *testing.T, tr sink, sid int, sched []drv.Step) bool {
 	var cb *cbWorld
 	if mode == "cb" {
 		cb = newCBWorld(n)
+		defer cb.releaseAll()
 	}
 	if mode == "p2p" || mode == "cb" {
 		tps, sidx, dctx, closeAll, err := p2pSetup(t, n, thr, nv, seed+sid+1, cb)
@@ -398,6 +439,10 @@ func runCeremony(t *testing.T, tr sink, sid int, sched []drv.Step) bool {
 		return ""
 	}
 	hang := func() bool {
+		if path := os.Getenv("VERIF_HANGDUMP"); path != "" { // development aid: where is everybody?
+			buf := make([]byte, 1<<24)
+			_ = os.WriteFile(path, buf[:runtime.Stack(buf, true)], 0o644)
+		}
 		tr.Emit(drv.Step{"ev": "Hang"})
 		cancel()
 
@@ -410,8 +455,52 @@ func runCeremony(t *testing.T, tr sink, sid int, sched []drv.Step) bool {
 		return false
 	}
 
+	// mode cb: the stimulated node must be quiescent before the event is logged (and before the next move is made)
+	quiet := func(j int) bool {
+		if cb == nil || nw.gid[j].Load() == 0 {
+			return true // not started yet: what it is given waits in the channels of its transport
+		}
+
+		return settle(nw.gid[j].Load())
+	}
+	// giveUp: the real transport call of node j has returned an ERROR: hand it back, the node returns from runFrostParallel
+	giveUp := func(j, round int) (bool, bool) {
+		r := nw.inner(round, j)
+		if cb == nil || r == nil || r.err == nil {
+			return false, false
+		}
+		if round == 1 {
+			nw.rel1[j] <- struct{}{}
+		} else {
+			nw.rel2[j] <- struct{}{}
+		}
+		_, hung := await(j, make(chan struct{}))
+
+		return true, hung
+	}
+	wireStats := func(ev drv.Step, j int) {
+		if cb != nil {
+			ev["failed"], ev["resent"] = cb.stats(j)
+		}
+	}
+
 	for _, st := range sched[1:] {
 		switch drv.Str(st["ev"]) {
+		case "Fault":
+			if cb == nil {
+				t.Fatalf("Fault step outside mode cb: %v", st)
+			}
+			f := &fault{i: drv.Num(st["i"]), r: drv.Num(st["r"]), k: drv.Num(st["k"]), times: drv.Num(st["times"]),
+				what: drv.Str(st["what"]), err: drv.Str(st["err"]), where: drv.Str(st["where"])}
+			if f.k < 1 {
+				f.k = 1
+			}
+			if f.times < 1 {
+				f.times = 1
+			}
+			cb.arm(f)
+			tr.Emit(drv.Step{"ev": "Fault", "i": f.i, "r": f.r, "what": f.what, "k": f.k, "err": f.err, "where": f.where,
+				"times": f.times, "relay": p2p.IsRelayError(f.error())})
 		case "Start":
 			i := drv.Num(st["i"])
 			tp := &nodeTP{nw: nw, i: i}
@@ -424,6 +513,7 @@ func runCeremony(t *testing.T, tr sink, sid int, sched []drv.Step) bool {
 						nw.done[i] <- result{nil, fmt.Errorf("panic: %v", r)}
 					}
 				}()
+				nw.gid[i].Store(goid())
 				sh, err := dkg.VerifRunFrostParallel(ctx, tp, uint32(nv), uint32(n), uint32(thr), uint32(shareIdx[i-1]), dkgCtx)
 				nw.done[i] <- result{sh, err}
 			}()
@@ -437,9 +527,6 @@ func runCeremony(t *testing.T, tr sink, sid int, sched []drv.Step) bool {
 				tr.Emit(ev)
 
 				return abort()
-			}
-			if cb != nil && !(cb.castCaptured(i, 1) && cb.sharesParked(i)) {
-				return hang() // the real Round1 did not hand its cast / shares to the wire
 			}
 			nw.mu.Lock()
 			cast, p2p := nw.cast1[i], nw.p2p1[i]
@@ -460,6 +547,21 @@ func runCeremony(t *testing.T, tr sink, sid int, sched []drv.Step) bool {
 				}
 			}
 			ev["casts"], ev["p2p"], ev["ncomm"], ev["feld"], ev["ids"] = keyList(cast), keyList(p2p), sortedKeys(ncomm), feld, ids
+			if !quiet(i) {
+				return hang()
+			}
+			wireStats(ev, i)
+			if gone, hung := giveUp(i, 1); hung {
+				return hang()
+			} else if gone { // a send of the real Round1 failed and the node gave up
+				ev["ok"], ev["err"] = false, errStr(i)
+				tr.Emit(ev)
+
+				return abort()
+			}
+			if cb != nil && !(cb.castCaptured(i, 1) && cb.sharesParked(i)) {
+				return hang() // the real Round1 did not hand its cast / shares to the wire
+			}
 			tr.Emit(ev)
 		case "D1C", "D1P", "D2", "RD":
 			i, j := drv.Num(st["i"]), drv.Num(st["j"])
@@ -471,11 +573,12 @@ func runCeremony(t *testing.T, tr sink, sid int, sched []drv.Step) bool {
 					ev["k"] = st["k"]
 				}
 				var err error
+				var stuck bool
 				switch kind {
 				case "D1C":
-					err = cb.deliverCast(ctx, i, j, 1)
+					err, stuck = cb.deliverCast(ctx, i, j, 1)
 				case "D2":
-					err = cb.deliverCast(ctx, i, j, 2)
+					err, stuck = cb.deliverCast(ctx, i, j, 2)
 				case "RP":
 					nw.mu.Lock()
 					shares := nw.p2p1[i]
@@ -487,6 +590,9 @@ func runCeremony(t *testing.T, tr sink, sid int, sched []drv.Step) bool {
 					if !cb.releaseShare(i, j) {
 						return hang()
 					}
+				}
+				if stuck || !quiet(j) {
+					return hang()
 				}
 				ev["ok"] = err == nil
 				if err != nil {
@@ -529,6 +635,21 @@ func runCeremony(t *testing.T, tr sink, sid int, sched []drv.Step) bool {
 			ev := drv.Step{"ev": "Ret1", "j": j, "ok": entered, "casts": [][]int{}}
 			if !entered {
 				ev["err"] = errStr(j)
+				tr.Emit(ev)
+
+				return abort()
+			}
+			if r := nw.inner(1, j); r != nil {
+				ev["used"], ev["usedp"] = r.used, r.usedp // what the real Round1 returned
+			}
+			if !quiet(j) {
+				return hang()
+			}
+			wireStats(ev, j)
+			if gone, hung := giveUp(j, 2); hung {
+				return hang()
+			} else if gone { // the broadcast of the real Round2 failed and the node gave up
+				ev["ok"], ev["err"] = false, errStr(j)
 				tr.Emit(ev)
 
 				return abort()
